@@ -1,7 +1,7 @@
-CONSTANTS MaxH = 8
+CONSTANTS MaxH = 9
  Branches = {"a", "b", "c"}
  StartC = 1
- MaxReorgs = 5
+ MaxReorgs = 6
 SPECIFICATION Spec
 INVARIANT NoBadMessage
 INVARIANT ClientIsCanonical
